@@ -5,6 +5,7 @@ import (
 	"fmt"
 	"runtime"
 	"sync"
+	"time"
 
 	"github.com/gregoryv/mq"
 
@@ -35,7 +36,7 @@ const (
 func (c05) ID() string    { return "C05" }
 func (c05) Level() string { return "exploration" }
 func (c05) Rule() string {
-	return "the hostile corpus of C04 (with its emphasis on truncated, emptied and inconsistent repeated sections and on headers declaring more than they deliver) is decoded by ReadPacket and UnmarshalBinary under a per-call meter: bytes allocated <= 64*L+32KiB, thread CPU time <= 2s+2us*L, live heap growth <= 64*L+64MiB (heap poller, 500us period), every list of a returned packet <= frame length; a call that never returns is caught by the in-worker watchdog on CPU-time evidence. L = max(declared remaining length, bytes supplied). distinct = hash(api, input); non-trivial = the decoder was entered with a complete body"
+	return "the hostile corpus of C04 (with its emphasis on truncated, emptied and inconsistent repeated sections and on headers declaring more than they deliver) is decoded by ReadPacket and UnmarshalBinary under a per-call meter: bytes allocated <= 64*L+32KiB, thread CPU time <= 2s+2us*L, live heap growth <= 64*L+64MiB (heap poller, 500us period), every list of a returned packet <= frame length; packets returned earlier must not grow; no goroutine may be left behind by a case; a call that never returns is caught by the in-worker watchdog on CPU-time evidence. L = max(declared remaining length, bytes supplied). distinct = hash(api, input); non-trivial = the decoder was entered with a complete body"
 }
 func (c05) Assumptions() []string {
 	return []string{
@@ -66,7 +67,28 @@ func (c05) Run(c *run.Ctx, phase, idx int) {
 		}
 	})
 	c.SetHeapBudget(0)
+	// nothing the decoder starts may stay behind: goroutines it spawned are
+	// resources that grow without bound over a connection's life
+	if c05BaseGoroutines == 0 {
+		c05BaseGoroutines = runtime.NumGoroutine()
+	}
+	if g := runtime.NumGoroutine(); g > c05BaseGoroutines {
+		for try := 0; try < 5 && g > c05BaseGoroutines; try++ {
+			time.Sleep(20 * time.Millisecond)
+			g = runtime.NumGoroutine()
+		}
+		c.Max("goroutines_above_baseline", float64(g-c05BaseGoroutines))
+		if g > c05BaseGoroutines+4 {
+			buf := make([]byte, 1<<16)
+			buf = buf[:runtime.Stack(buf, true)]
+			c.Violation("C05/goroutines-left-behind", fmt.Sprintf("%d goroutines more than at the start of this worker are still alive after the case", g-c05BaseGoroutines),
+				map[string]interface{}{"goroutines": clipStr(string(buf), 6000)})
+			c05BaseGoroutines = g
+		}
+	}
 }
+
+var c05BaseGoroutines int
 
 func c05Budget(c *run.Ctx, L int64) {
 	c.SetHeapBudget(mon.LiveHeap() + c05AllocPerByte*L + c05HeapSlack)
